@@ -13,12 +13,13 @@
     ok <tags>
     DIFF <kind> line=<n> <details>        kind ∈ model, spec
 -/
-import Driver.Ops
+import Driver.Ops2
 
 open Decimal Driver
 
 structure St where
   env : Array Dec := #[]
+  ctx : Ctx := {}
   pending : Option Step := none
   pendingLine : String := ""
   lineNo : Nat := 0
@@ -80,7 +81,7 @@ partial def loop (h : IO.FS.Stream) (out : IO.FS.Stream) (st : St) : IO Unit := 
   let line := (line.dropEndWhile (fun c => c == '\n' || c == '\r')).toString
   let st := { st with lineNo := st.lineNo + 1 }
   if line.startsWith "P" then
-    loop h out { st with env := #[], pending := none }
+    loop h out { st with env := #[], pending := none, ctx := {} }
   else if line.startsWith "G " then
     let (msg, env) := checkG st (line.drop 2).toString
     out.putStrLn msg
@@ -88,8 +89,8 @@ partial def loop (h : IO.FS.Stream) (out : IO.FS.Stream) (st : St) : IO Unit := 
     loop h out { st with env := env, pending := none }
   else if line.startsWith "L " || line.startsWith "O " then
     let toks := (line.drop 2).toString.splitOn " "
-    let step := if line.startsWith "L " then doLoad st.env toks else doOp st.env toks
-    loop h out { st with pending := some step, pendingLine := line }
+    let step := if line.startsWith "L " then doLoad st.env toks else doOp st.env st.ctx toks
+    loop h out { st with pending := some step, pendingLine := line, ctx := step.ctx.getD st.ctx }
   else if line.startsWith "#" || line == "" then
     loop h out st
   else do
